@@ -13,7 +13,7 @@ RULE = ("bounded-exhaustive: every multiset of 1..5 (thorough 6) items over 0..4
         "instance is solved by complete greedy under all 16 switch masks x {maxmin,minmax,diff}, by ckk/snp/rnp (diff), by dp "
         "(2 of 5 objectives) and, for values <= 200, by ilp (1 of 5 objectives); non-trivial = n > numbins >= 2 and LPT's value "
         "differs from the optimum of that objective; distinct on (algorithm, config, sorted values, numbins); every 10th (thorough: 4th) instance is of class manysmall: "
-        "11-13 items with values <= 15, where O1 stays cheap, solved by cg (9 configurations), snp, rnp and ckk (<= 3 bins); 30% of each shard: certificate pairs "
+        "11-13 items with values <= 15, where O1 stays cheap, solved by cg (9 configurations), snp, rnp and ckk (<= 3 bins); 15% of each shard: snp against the exhaustive oracle on 4 bins x 10 items / 5 bins x 9-10 items; 15%: certificate pairs "
         "(snp vs complete greedy on 9-12 items, 4-5 bins, values <= 1000; a strictly better validated partition refutes the other); 7 of 8 main-loop slots: complete-greedy focus "
         "(cheap instances of 5-8 items, every third one of 9-11 items with 2-4 bins, every third one a few big plus a few tiny items with 2-3 bins; 3 objectives x default switches + a random mask, plus a heuristic-3-on run under min-max) and a ckk/snp focus "
         "(3-4 bins, 6-9 items); a quarter of the exact runs ask for sums only (the returned sums must be reachable and optimal), plus a sums-only focus on snp/ckk with 10-12 small-valued items and 3-4 bins")
@@ -197,6 +197,39 @@ def run_certificate_pair(k, values, rng, ctx):
     ctx.counters["certificate_pairs"] += 1
 
 
+def judge_snp_mid(case, ctx):
+    """snp on 4-5 bins x 9-10 items against the numpy form of the exhaustive oracle (instance volume matters here; every 50th optimum is re-computed with the plain oracle)."""
+    k, values = case["k"], case["values"]
+    ctx.evaluated()
+    r, names, vmap = C.run_partition_case(case, "Sums" if case.get("sums_only") else "PartitionAndSumsTuple", ctx=ctx, timeout=12)
+    if r.timeout:
+        ctx.inconc("timeout:snp", case)
+        return
+    if not r.ok:
+        ctx.violation("exception" if r.exc is not None else "none_result", "snp", case, C.exc_witness(r, case) if r.exc is not None else {})
+        return
+    if case.get("sums_only"):
+        s = [exact(x) for x in r.value]
+        if len(s) != k or sum(s) != sum(values):
+            ctx.violation("sums_output_is_not_a_reachable_sum_vector", "snp", case, {"sums": s, "numbins": k})
+            return
+    else:
+        bad = C.check_partition_result(r.value, names, vmap, k, "snp")
+        if bad:
+            ctx.violation(bad[0], "snp", case, bad[1])
+            return
+        s = [sum(b) for b in C.bins_values(r.value[1], vmap)]
+    opt = O.diff_opt_fast(values, k)
+    ctx.counters["snp_mid_instances"] += 1
+    if ctx.counters["snp_mid_instances"] % 50 == 1 and opt != min(v[-1] - v[0] for v in O.sum_vectors(values, k)):
+        raise AssertionError("oracle self-check failed: diff_opt_fast disagrees with sum_vectors on %r, %d bins" % (values, k))
+    got = max(s) - min(s)
+    if got != opt:
+        ctx.violation("suboptimal", "snp", case, {"numbins": k, "n": len(values), "objective": "diff", "got": got, "opt": opt, "sums": sorted(s), "valid_partition": True})
+        return
+    ctx.held(key=("snp", None, "diff", None, tuple(sorted(values)), k, bool(case.get("sums_only"))), nontrivial=lpt_value(values, k, "diff", None) != opt, cls="snp/diff/snp_mid")
+
+
 def run_cg_focus(k, values, rng, ctx, large=False):
     vectors = O.sum_vectors(values, k)
     optcache = {}
@@ -243,8 +276,17 @@ def run_instance(cls, k, values, rng, ctx, algs=None, full_grid=False):
 
 def run_shard(spec, rng, ctx):
     from rv.monitors import standard_probes
-    probes = standard_probes().start()
     end = C.budget(spec)
+    # 15% of the budget, BEFORE the sys.monitoring probes are switched on (line probes slow snp down three times, and this phase lives on instance volume): snp against the
+    # exhaustive oracle at the largest size the oracle affords (4 bins x 10 items, 5 bins x 9-10 items). Second-level inclusion-exclusion trees only exist from 4 bins on, and
+    # their pruning defects show in ~0.3% of such instances and almost never below 10 items
+    mid_end = C.now() + 0.15 * float(spec.get("budget_s", 60))
+    while C.now() < mid_end:
+        k = rng.choice([4, 4, 4, 5])
+        vals = [rng.randint(1, rng.choice([30, 100, 100, 300])) for _ in range(10 if k == 4 else rng.randint(9, 10))]
+        judge_snp_mid({"kind": "partition", "k": k, "values": vals, "cls": "snp_mid", "pres": rng.choice(["list", "list", "dict_str"]), "pres_seed": rng.randrange(1 << 30), "alg": "snp",
+                       **({"sums_only": True} if rng.random() < 0.3 else {})}, ctx)
+    probes = standard_probes().start()
     i = 0
     try:
         # bounded-exhaustive small scope first: EVERY multiset of 1..5 items (thorough: 6) over the values 0..4 x 1..4 bins, solved by every exact algorithm
@@ -261,7 +303,7 @@ def run_shard(spec, rng, ctx):
                 ctx.counters["grid_exhaustive_instances"] += 1
         ctx.counters["grid_exhaustive_complete_shards"] += int(complete)
         # 30% of the budget: snp vs complete greedy beyond the exhaustive oracle's size (pruning defects of snp show at >= 4 bins and >= 9-10 items)
-        pair_end = C.now() + 0.3 * float(spec.get("budget_s", 60))
+        pair_end = C.now() + 0.15 * float(spec.get("budget_s", 60))
         while C.now() < pair_end:
             k = rng.choice([4, 4, 4, 5])
             # 10 items is the sweet spot (snp ~50 ms); the thorough tier also goes to 11-12 items
@@ -342,5 +384,7 @@ def run_shard(spec, rng, ctx):
 
 
 def replay(case, ctx):
+    if case.get("cls") == "snp_mid":
+        return judge_snp_mid(case, ctx)
     vectors = O.sum_vectors(case["values"], case["k"])
     judge_one(case, vectors, ctx, {})
